@@ -41,18 +41,28 @@ Proof.
   destruct (awaitE st !! s) as [[|e q]|]; cbn; rewrite ?lookup_delete_ne; done.
 Qed.
 
-Lemma step_down st l st' : step st l = Some st' → down st' = down st ++ batch_of st l.
+Lemma arm_down st l st' : arm false st l = Some st' → down st' = down st ++ batch_of st l.
 Proof.
   destruct l as [es peek|e peek|s|s io|]; cbn; intros H.
-  - injection H as <-. unfold arrive_metrics. by rewrite fold_park_metric_down.
+  - injection H as <-. unfold arrive_metrics, close_group, open_group. cbn.
+    by rewrite fold_park_metric_down.
   - injection H as <-. unfold arrive_event. destruct (resolve peek (ev_src e)); cbn; [done|].
     by rewrite app_nil_r.
-  - destruct (bool_decide (s ∈ toLookup st)); [|done]. injection H as <-. cbn. by rewrite app_nil_r.
+  - destruct (lk_send s (lk st)); [|done]. injection H as <-. cbn. by rewrite app_nil_r.
   - injection H as <-. cbn -[release_events release_metrics].
     rewrite release_events_down, release_metrics_down, release_metrics_awaitE.
     unfold parked_for. rewrite fmap_app, <- !list_fmap_compose, <- app_assoc. done.
   - injection H as <-. cbn. by rewrite app_nil_r.
 Qed.
+
+(* the refill only touches the lookup side *)
+Lemma step_arm st l st' : step st l = Some st' → ∃ s1, arm false st l = Some s1 ∧ st' = refill s1.
+Proof.
+  unfold step, step_gen. destruct (arm false st l) as [s1|]; [|done]. intros [= <-]. eauto.
+Qed.
+
+Lemma step_down st l st' : step st l = Some st' → down st' = down st ++ batch_of st l.
+Proof. intros (s1 & H & ->)%step_arm. change (down (refill s1)) with (down s1). by apply arm_down. Qed.
 
 (* ---- items with a known source leave within the label; the others are parked under their source ---- *)
 
@@ -93,8 +103,8 @@ Proof.
   unfold is_miss. by rewrite Hr.
 Qed.
 
-Lemma step_immediate st l st' x :
-  step st l = Some st' → x ∈ items_of l →
+Lemma arm_immediate st l st' x :
+  arm false st l = Some st' → x ∈ items_of l →
   match label_answer l (item_src x) with
   | Some io => Drec x io ∈ batch_of st l
   | None => x ∈ parked_for st' (item_src x)
@@ -105,6 +115,7 @@ Proof.
     destruct (resolve peek (entry_src e)) as [io|] eqn:Hr.
     + by apply elem_of_metric_hits.
     + unfold parked_for. apply elem_of_app. left. apply elem_of_list_fmap. exists e. split; [done|].
+      unfold arrive_metrics, close_group. cbn [awaitM with_lk].
       apply (fold_park_metric_in_new false). by apply elem_of_metric_misses.
   - injection H as <-. apply elem_of_list_singleton in Hx as ->. cbn. unfold arrive_event.
     destruct (resolve peek (ev_src e)) as [io|] eqn:Hr.
@@ -112,6 +123,16 @@ Proof.
     + unfold parked_for, park_event; cbn. rewrite lookup_insert. cbn.
       apply elem_of_app. right. apply elem_of_list_fmap. exists e. split; [done|].
       apply elem_of_app. right. by apply elem_of_list_singleton.
+Qed.
+
+Lemma step_immediate st l st' x :
+  step st l = Some st' → x ∈ items_of l →
+  match label_answer l (item_src x) with
+  | Some io => Drec x io ∈ batch_of st l
+  | None => x ∈ parked_for st' (item_src x)
+  end.
+Proof.
+  intros (s1 & H & ->)%step_arm. change (parked_for (refill s1)) with (parked_for s1). by apply arm_immediate.
 Qed.
 
 (* ---- a lookup result releases exactly what is parked for its source --------------------------------- *)
@@ -216,179 +237,3 @@ Proof.
   - intros s io ->. destruct (step_info _ _ _ _ H) as (_ & H2 & H3). done.
 Qed.
 
-(* ---- at most one lookup per source --------------------------------------------------------------------- *)
-
-Definition LInv (st : state) : Prop :=
-  ∀ s, count s (toLookup st ++ sent st) = if waiting st s then 1%nat else 0%nat.
-
-Lemma waiting_false st s : waiting st s = false ↔ awaitM st !! s = None ∧ awaitE st !! s = None.
-Proof.
-  unfold waiting. rewrite orb_false_iff, !bool_decide_eq_false, <- !eq_None_not_Some. done.
-Qed.
-Lemma waiting_true st s : waiting st s = true ↔ is_Some (awaitM st !! s) ∨ is_Some (awaitE st !! s).
-Proof. unfold waiting. rewrite orb_true_iff, !bool_decide_eq_true. done. Qed.
-
-Lemma waiting_ext st st' s :
-  (is_Some (awaitM st' !! s) ↔ is_Some (awaitM st !! s)) →
-  (is_Some (awaitE st' !! s) ↔ is_Some (awaitE st !! s)) → waiting st' s = waiting st s.
-Proof.
-  intros H1 H2. unfold waiting.
-  rewrite (bool_decide_ext _ _ H1), (bool_decide_ext _ _ H2). done.
-Qed.
-
-Lemma no_events_None st s : Inv st → no_events st s = bool_decide (awaitE st !! s = None).
-Proof.
-  intros [_ HE _ _ _]. unfold no_events. destruct (awaitE st !! s) as [[|e q]|] eqn:E; [|done|done].
-  by destruct (HE _ _ E).
-Qed.
-
-Lemma LInv_park_metric st e : Inv st → LInv st → LInv (park_metric false st e).
-Proof.
-  intros HI HL s. specialize (HL s). unfold park_metric.
-  destruct (awaitM st !! entry_src e) as [q|] eqn:EM; cbn.
-  - rewrite (waiting_ext st); [exact HL| |done]. cbn.
-    destruct (decide (s = entry_src e)) as [->|Hne].
-    + rewrite lookup_insert, EM. split; eauto.
-    + by rewrite lookup_insert_ne.
-  - rewrite (no_events_None _ _ HI).
-    destruct (decide (s = entry_src e)) as [->|Hne].
-    + assert (Hw' : waiting (St (<[entry_src e:=[e]]> (awaitM st)) (awaitE st)
-                  (if bool_decide (awaitE st !! entry_src e = None) then entry_src e :: toLookup st else toLookup st)
-                  (sent st) (inc64 (hostsM st)) (hostsE st) (itemsE st) (down st) (emitted st)) (entry_src e) = true).
-      { apply waiting_true. left. cbn. rewrite lookup_insert. eauto. }
-      rewrite Hw'. destruct (awaitE st !! entry_src e) as [q|] eqn:EE; cbn.
-      * assert (Hw : waiting st (entry_src e) = true) by (apply waiting_true; right; rewrite EE; eauto).
-        by rewrite Hw in HL.
-      * assert (Hw : waiting st (entry_src e) = false) by (by apply waiting_false).
-        rewrite Hw in HL. cbn. destruct (decide (entry_src e = entry_src e)); [|done]. by rewrite HL.
-    + assert (Hw' : ∀ tl, waiting (St (<[entry_src e:=[e]]> (awaitM st)) (awaitE st) tl
-                  (sent st) (inc64 (hostsM st)) (hostsE st) (itemsE st) (down st) (emitted st)) s = waiting st s).
-      { intros tl. apply waiting_ext; cbn; [|done]. by rewrite lookup_insert_ne. }
-      rewrite Hw', <- HL. destruct (bool_decide (awaitE st !! entry_src e = None)); cbn; [|done].
-      by destruct (decide (entry_src e = s)); [congruence|].
-Qed.
-
-Lemma LInv_fold_park_metric es st : Inv st → LInv st → LInv (fold_left (park_metric false) es st).
-Proof.
-  revert st; induction es as [|e r IH]; intros st HI HL; cbn; [done|].
-  apply IH; [by apply Inv_park_metric|by apply LInv_park_metric].
-Qed.
-
-Lemma LInv_park_event st e : Inv st → LInv st → LInv (park_event false st e).
-Proof.
-  intros HI HL s. specialize (HL s). destruct HI as [_ HE _ _ _]. unfold park_event; cbn.
-  set (q := default [] (awaitE st !! ev_src e)).
-  destruct (decide (s = ev_src e)) as [->|Hne].
-  - assert (Hw' : ∀ tl hE, waiting (St (awaitM st) (<[ev_src e:=q ++ [e]]> (awaitE st)) tl (sent st) (hostsM st)
-                      hE (inc64 (itemsE st)) (down st) (emitted st)) (ev_src e) = true).
-    { intros tl hE. apply waiting_true. right. cbn. rewrite lookup_insert. eauto. }
-    rewrite Hw'. subst q. destruct (awaitE st !! ev_src e) as [q|] eqn:EE; cbn.
-    + destruct (HE _ _ EE) as [Hne _]. destruct q as [|e0 q]; [done|]. cbn.
-      assert (Hw : waiting st (ev_src e) = true) by (apply waiting_true; right; rewrite EE; eauto).
-      by rewrite Hw in HL.
-    + destruct (awaitM st !! ev_src e) as [qm|] eqn:EM; cbn.
-      * assert (Hw : waiting st (ev_src e) = true) by (apply waiting_true; left; rewrite EM; eauto).
-        by rewrite Hw in HL.
-      * assert (Hw : waiting st (ev_src e) = false) by (by apply waiting_false).
-        rewrite Hw in HL. destruct (decide (ev_src e = ev_src e)); [|done]. by rewrite HL.
-  - assert (Hw' : ∀ tl hE, waiting (St (awaitM st) (<[ev_src e:=q ++ [e]]> (awaitE st)) tl (sent st) (hostsM st)
-                      hE (inc64 (itemsE st)) (down st) (emitted st)) s = waiting st s).
-    { intros tl hE. apply waiting_ext; cbn; [done|]. by rewrite lookup_insert_ne. }
-    rewrite Hw', <- HL.
-    destruct (match q with [] => true | _ => false end && match awaitM st !! ev_src e with None => true | Some _ => false end);
-      cbn; [|done].
-    by destruct (decide (ev_src e = s)); [congruence|].
-Qed.
-
-Lemma LInv_send st s :
-  s ∈ toLookup st → LInv st →
-  LInv (St (awaitM st) (awaitE st) (remove_one s (toLookup st)) (s :: sent st)
-           (hostsM st) (hostsE st) (itemsE st) (down st) (emitted st)).
-Proof.
-  intros Hin HL s'. specialize (HL s'). change (waiting (St _ _ _ _ _ _ _ _ _) s') with (waiting st s').
-  rewrite <- HL, !count_app. cbn.
-  destruct (decide (s = s')) as [->|Hne].
-  - rewrite count_remove_one_eq. apply count_pos_elem in Hin. lia.
-  - by rewrite count_remove_one_ne.
-Qed.
-
-Lemma LInv_info st s io :
-  Inv st → s ∈ sent st → LInv st →
-  LInv (answer (release_events (release_metrics st s io) s io) s).
-Proof.
-  intros HI Hin HL s'. pose proof (HL s') as HLs. revert HLs.
-  set (st1 := release_events (release_metrics st s io) s io).
-  assert (HtL : toLookup st1 = toLookup st).
-  { unfold st1, release_events, release_metrics.
-    destruct (awaitM st !! s); cbn; destruct (awaitE st !! s) as [[|e q]|]; done. }
-  assert (Hsent : sent st1 = sent st).
-  { unfold st1, release_events, release_metrics.
-    destruct (awaitM st !! s); cbn; destruct (awaitE st !! s) as [[|e q]|]; done. }
-  change (toLookup (answer st1 s)) with (toLookup st1).
-  change (sent (answer st1 s)) with (remove_one s (sent st1)).
-  change (waiting (answer st1 s) s') with (waiting st1 s').
-  rewrite HtL, Hsent, !count_app.
-  destruct (decide (s' = s)) as [->|Hne].
-  - (* the answered source: nothing is parked for it any more *)
-    assert (Hw1 : waiting st1 s = false).
-    { apply waiting_false. unfold st1. rewrite release_events_awaitM, release_metrics_awaitM, lookup_delete.
-      split; [done|].
-      pose proof (release_events_awaitE_s (release_metrics st s io) s io) as Hnil.
-      apply (slot_ok_default_nil ev_src); [|done].
-      apply (inv_E _ (Inv_release_events _ s io (Inv_release_metrics _ s io HI))). }
-    rewrite Hw1, count_remove_one_eq. apply count_pos_elem in Hin.
-    destruct (waiting st s); lia.
-  - assert (Hw1 : waiting st1 s' = waiting st s').
-    { apply waiting_ext; unfold st1.
-      - by rewrite release_events_awaitM, release_metrics_awaitM, lookup_delete_ne.
-      - by rewrite release_events_awaitE_ne, release_metrics_awaitE. }
-    by rewrite Hw1, count_remove_one_ne.
-Qed.
-
-Lemma LInv_step st l st' : Inv st → LInv st → step_env st l = Some st' → LInv st'.
-Proof.
-  intros HI HL. destruct l as [es peek|e peek|s|s io|]; cbn; intros Hs.
-  - injection Hs as <-. unfold arrive_metrics. apply LInv_fold_park_metric.
-    + by eapply Inv_ext; [..|exact HI].
-    + exact HL.
-  - injection Hs as <-. unfold arrive_event. destruct (resolve peek (ev_src e)); [exact HL|].
-    by apply LInv_park_event.
-  - destruct (bool_decide (s ∈ toLookup st)) eqn:E; [|done]. injection Hs as <-.
-    apply bool_decide_eq_true in E. by apply LInv_send.
-  - destruct (bool_decide (s ∈ sent st)) eqn:E; [|done]. cbn in Hs. injection Hs as <-.
-    apply bool_decide_eq_true in E. by apply LInv_info.
-  - injection Hs as <-. exact HL.
-Qed.
-
-Lemma step_env_step st l st' : step_env st l = Some st' → step st l = Some st'.
-Proof. destruct l; cbn; try done. by destruct (bool_decide _). Qed.
-
-Lemma LInv_run ls : ∀ s0 st, Inv s0 → LInv s0 → run step_env s0 ls = Some st → Inv st ∧ LInv st.
-Proof.
-  induction ls as [|l r IH]; intros s0 st HI HL H; cbn in H.
-  - by injection H as <-.
-  - destruct (step_env s0 l) as [s1|] eqn:E; [|done].
-    apply (IH s1 st); [|by eapply LInv_step|done].
-    eapply Inv_step; [exact HI|by apply step_env_step].
-Qed.
-
-Lemma LInv_init : LInv init.
-Proof. intros s. done. Qed.
-
-(* C11_one_lookup *)
-Lemma lookup_iff_waiting ls st s :
-  run step_env init ls = Some st →
-  count s (toLookup st ++ sent st) = if waiting st s then 1%nat else 0%nat.
-Proof. intros H. by destruct (LInv_run ls init st Inv_init LInv_init H) as [_ HL]. Qed.
-
-Lemma one_lookup ls st s :
-  run step_env init ls = Some st → (count s (toLookup st ++ sent st) ≤ 1)%nat.
-Proof. intros H. rewrite (lookup_iff_waiting _ _ _ H). destruct (waiting st s); lia. Qed.
-
-(* a run of the guarded system is a run of the plain one: every other theorem applies to it *)
-Lemma run_env_run ls : ∀ s0 st, run step_env s0 ls = Some st → run step s0 ls = Some st.
-Proof.
-  induction ls as [|l r IH]; intros s0 st H; cbn in *; [done|].
-  destruct (step_env s0 l) as [s1|] eqn:E; [|done].
-  rewrite (step_env_step _ _ _ E). by apply IH.
-Qed.
